@@ -24,6 +24,9 @@ Theorem c18_spawn_at : c18_spawn_at_stmt.                   Proof. exact c18_spa
 (* every mutation that keeps live entities live (spawn, insert, remove, exchange, batches) keeps them as well *)
 Theorem c18_frame : c18_frame_stmt.                         Proof. exact c18_frame_proof. Qed.
 
+(* a second call right after a first one reports nothing *)
+Theorem c18_quiet : c18_quiet_stmt.                         Proof. exact c18_quiet_proof. Qed.
+
 (* non-vacuity: overwrite-with-equal, change, remove-then-re-add, despawn with id reuse; reads in the
    order removed, changed (twice), added *)
 Example c18_nonvacuous :
@@ -39,4 +42,4 @@ Example c18_nonvacuous_spawn_at :
 Proof. vm_compute. reflexivity. Qed.
 
 Print Assumptions c18_sets. Print Assumptions c18_track. Print Assumptions c18_script_irrelevant.
-Print Assumptions c18_diff. Print Assumptions c18_nodup. Print Assumptions c18_despawn. Print Assumptions c18_spawn_at. Print Assumptions c18_frame.
+Print Assumptions c18_diff. Print Assumptions c18_nodup. Print Assumptions c18_despawn. Print Assumptions c18_spawn_at. Print Assumptions c18_frame. Print Assumptions c18_quiet.
